@@ -18,7 +18,7 @@ import (
 	"github.com/elastos/Elastos.ELA/core/types/interfaces"
 )
 
-var sim = &regnet.Sim{Name: "c06", Maturity: 2, OwnArbiter: true}
+var sim = &regnet.Sim{Name: "c06", Maturity: 2, OwnArbiter: true, CRAssets: true}
 var pending *hx.Violation
 
 // spendCheck judges the implementation alone: on the chain the node reports as active every
@@ -94,7 +94,47 @@ func exec(t []string) string {
 	if t[0] == "deliver" || t[0] == "submit" {
 		pending = spendCheck()
 	}
+	if t[0] == "ctx" && out == "ok" {
+		pending = acceptedSpendsUnspent(sim.LastTx)
+	}
 	return out
+}
+
+// acceptedSpendsUnspent: a transaction the context check accepts spends only outpoints that the active chain
+// has created and not spent (judged from the blocks of the active chain, not from the node's indexes).
+func acceptedSpendsUnspent(tx interfaces.Transaction) *hx.Violation {
+	n := sim.N
+	created := map[string]bool{}
+	spentBy := map[string]string{}
+	for _, h := range n.ActiveChain() {
+		b := n.Block(h)
+		if b == nil {
+			continue
+		}
+		for _, btx := range b.Transactions {
+			if !btx.IsCoinBaseTx() {
+				for _, in := range btx.Inputs() {
+					spentBy[in.ReferKey()] = regnet.ID(btx.Hash())
+				}
+			}
+			for i := range btx.Outputs() {
+				in := ctypes.Input{Previous: ctypes.OutPoint{TxID: btx.Hash(), Index: uint16(i)}}
+				created[in.ReferKey()] = true
+			}
+		}
+	}
+	for _, in := range tx.Inputs() {
+		k := in.ReferKey()
+		if by, sp := spentBy[k]; sp {
+			return &hx.Violation{Kind: "context-check-accepts-spent-outpoint",
+				Detail: fmt.Sprintf("%s (%s) spends %s:%d, already spent on the active chain by %s", regnet.ID(tx.Hash()), tx.TxType().Name(), regnet.ID(in.Previous.TxID), in.Previous.Index, by)}
+		}
+		if !created[k] {
+			return &hx.Violation{Kind: "context-check-accepts-uncreated-outpoint",
+				Detail: fmt.Sprintf("%s spends %s:%d", regnet.ID(tx.Hash()), regnet.ID(in.Previous.TxID), in.Previous.Index)}
+		}
+	}
+	return nil
 }
 
 func oracle(t []string, out string) *hx.Violation { return pending }
@@ -107,6 +147,7 @@ func gen(g *hx.Gen) {
 	witnessCoinbase(g)
 	witnessRegisterAsset(g)
 	witnessDupCoinbase(g)
+	witnessAppropriation(g)
 	nh := g.N(10, 60)
 	steps := g.N(45, 120)
 	for i := 0; i < nh; i++ {
@@ -237,6 +278,82 @@ func witnessDupCoinbase(g *hx.Gen) {
 	b6h := h.Block(br, nil, regnet.MineOpts{Miner: 2})
 	h.Deliver(b6h)
 	obs()
+}
+
+// apprTx builds a CRCAppropriation: inputs, first output to the CR expenses address (account 3), second to the
+// CR assets address (account 4); lock distinguishes otherwise equal transactions.
+func apprTx(lock uint32, ins []regnet.Coin, toExpenses, toAssets int64) interfaces.Transaction {
+	ts := &regnet.TxSpec{Kind: "ca", Nonce: fmt.Sprintf("%08x", lock),
+		Outs: []regnet.OutSpec{{Addr: 3, Value: toExpenses, Pay: "-"}, {Addr: 4, Value: toAssets, Pay: "-"}}}
+	for _, c := range ins {
+		ts.Ins = append(ts.Ins, regnet.InSpec{TxID: c.ID, Index: uint16(c.Idx)})
+	}
+	tx, err := sim.N.BuildTx(ts, ctxHeight)
+	if err != nil {
+		panic("harness: " + err.Error())
+	}
+	return tx
+}
+
+// ctxHeight: a block height in the CR committee era (regnet CRCommitteeStartHeight 442000) for `ctx` ops
+const ctxHeight = 442010
+
+// witnessAppropriation: CRCAppropriation is the transaction type that spends without signatures and whose
+// special check ends the context check. F pays F:0 to the CR assets address (account 4 on this node) and F:1
+// elsewhere; an appropriation spending F:0 passes the context check; after F:0 was spent on the chain (by an
+// ordinary transfer of account 4) an appropriation spending it again must be refused as a double spend.
+func witnessAppropriation(g *hx.Gen) {
+	h := &regnet.HistGen{S: sim, R: g.R, Emit: g.Emit}
+	h.Start()
+	br := &regnet.Branch{}
+	for i := 0; i < 4; i++ {
+		b := h.Block(br, nil, regnet.MineOpts{Miner: 1})
+		h.Deliver(b)
+		br = regnet.Extend(br, b)
+	}
+	var co *regnet.Coin
+	for _, c := range sim.Coins(br) {
+		if c.Addr == 1 && c.CB && c.Height == 1 {
+			cc := c
+			co = &cc
+		}
+	}
+	if co == nil {
+		return
+	}
+	txid := sim.N.TxByID(co.ID).Hash()
+	f, err := sim.N.Transfer(1, []ctypes.OutPoint{{TxID: txid, Index: uint16(co.Idx)}},
+		[]regnet.Out{{To: 4, Value: 900000}, {To: 2, Value: common.Fixed64(co.Value - 900000 - 1000)}}, 1<<46+9)
+	if err != nil {
+		panic("harness: " + err.Error())
+	}
+	b := h.Block(br, []interfaces.Transaction{f}, regnet.MineOpts{Miner: 1})
+	h.Deliver(b)
+	br = regnet.Extend(br, b)
+	f0 := regnet.Coin{ID: regnet.ID(f.Hash()), Idx: 0, Addr: 4, Value: 900000}
+	f1 := regnet.Coin{ID: regnet.ID(f.Hash()), Idx: 1, Addr: 2, Value: int64(f.Outputs()[1].Value)}
+	ctx := func(tx interfaces.Transaction) { g.Emit("ctx %d %s", ctxHeight, sim.N.DescribeTx(tx)) }
+	ctx(apprTx(1, []regnet.Coin{f0}, 90000, 810000)) // no appropriation needed
+	g.Emit("appr 1 90000")
+	ctx(apprTx(1, []regnet.Coin{f0}, 90000, 810000))         // accepted
+	ctx(apprTx(2, []regnet.Coin{f0}, 80000, 820000))         // wrong amount
+	ctx(apprTx(3, []regnet.Coin{f0}, 90000, 800000))         // inputs != outputs
+	ctx(apprTx(4, []regnet.Coin{f1}, 90000, f1.Value-90000)) // input not from the CR assets address
+	// F:0 is spent on the chain by its owner (while an appropriation is due every block must carry one:
+	// CheckBlockContext; so the flag is cleared first)
+	g.Emit("appr 0 0")
+	sp := transferOf(f0, 2, 1<<46+10)
+	b2 := h.Block(br, []interfaces.Transaction{sp}, regnet.MineOpts{Miner: 1})
+	h.Deliver(b2)
+	h.Watch = append(h.Watch, f0.ID)
+	h.Observe(true, 6)
+	g.Emit("appr 1 90000")
+	ctx(apprTx(5, []regnet.Coin{f0}, 90000, 810000)) // re-spend: refused (ErrTxDoubleSpend)
+	g.Emit("appr 1 80000")
+	ctx(apprTx(6, []regnet.Coin{f0}, 80000, 820000)) // next round, re-spend again
+	spOut := regnet.Coin{ID: regnet.ID(sp.Hash()), Idx: 0, Addr: 2, Value: int64(sp.Outputs()[0].Value)}
+	ctx(apprTx(7, []regnet.Coin{spOut}, 80000, spOut.Value-80000)) // unspent, but not a CR assets coin
+	g.Emit("appr 0 0")
 }
 
 func history(g *hx.Gen, steps int) {
@@ -450,6 +567,56 @@ func history(g *hx.Gen, steps int) {
 				}
 			}
 			h.Observe(true, 8)
+			continue
+		}
+		if c >= 78 && c < 82 && len(active.Blocks) >= 4 && r.Chance(50) { // CRCAppropriation context checks
+			// coins of the CR assets address (account 4): unspent ones, ones the chain has spent, and foreign coins
+			var own, gone, other []regnet.Coin
+			for _, co := range sim.Coins(active) {
+				if co.Addr == 4 && co.Value > 3000 {
+					own = append(own, co)
+				} else if co.Addr >= 1 && co.Addr <= 3 && co.Value > 3000 {
+					other = append(other, co)
+				}
+			}
+			for _, co := range spent {
+				if co.Addr == 4 && co.Value > 3000 {
+					gone = append(gone, co)
+				}
+			}
+			amt := int64(1000 + 100*r.Intn(5))
+			g.Emit("appr %d %d", r.Pick(1, 1, 1, 1, 0), amt)
+			for k := 0; k < 1+r.Intn(3); k++ {
+				var ins []regnet.Coin
+				pick := func(cs []regnet.Coin) {
+					if len(cs) > 0 {
+						ins = append(ins, cs[r.Intn(len(cs))])
+					}
+				}
+				switch r.Intn(5) {
+				case 0, 1:
+					pick(own)
+				case 2:
+					pick(gone)
+				case 3:
+					pick(own)
+					pick(gone)
+				default:
+					pick(other)
+				}
+				if len(ins) == 0 || (len(ins) == 2 && ins[0].ID == ins[1].ID && ins[0].Idx == ins[1].Idx) {
+					continue
+				}
+				var total int64
+				for _, in := range ins {
+					total += in.Value
+				}
+				first := amt + int64(r.Pick(0, 0, 0, 1))
+				second := total - first - int64(r.Pick(0, 0, 0, 0, 5))
+				spCount++
+				g.Emit("ctx %d %s", ctxHeight, sim.N.DescribeTx(apprTx(uint32(1000+spCount), ins, first, second)))
+			}
+			g.Emit("appr 0 0") // while an appropriation is due, blocks without one are refused
 			continue
 		}
 		if c >= 88 && c < 96 && len(active.Blocks) >= 4 { // pool: side-chain mining proofs and the outpoints they spend
